@@ -12,5 +12,10 @@ def run(c):
     # method level: the commit compares the index with the preselection the method recorded (must be the assembly's answer for the list
     # shown last), stores on a different index, writes nothing on the same one
     obl_phonetic.obl_phonetic_glue(c, 2 if c.tier == "quick" else 3, budget_s=900)
+    # "... or in a new context created over the same user-data directory": whatever options the new context is created with (it may be
+    # re-configured later, and a re-configuration does not read the store again), its constructor reads the store
+    c.only_clauses = {"constructor_consults_the_user_files_whatever_the_options"}
+    obl_phonetic.obl_userfiles(c, budget_s=600)
+    c.only_clauses = clauses.OWN["C09"]
     c.outside("persistence across processes: the store written by serde_json::to_string is assumed to be read back unchanged by from_slice "
               "(contract of serde_json and the file system); every restart point between two commits")
